@@ -491,7 +491,10 @@ def check_pipeline(flavor, trans, seq, coll):
                     cs = int(f.qualifiers.get("codon_start", ["1"])[0]) - 1
                     if cs != sf:
                         viol.append("a.codon_start" + cds_class(tx))
-                    one_frame = tx["cds_frames"] == frames_from_start(cds, tx["strand"], sf)
+                    five = cds[0] if tx["strand"] == "PLUS" else cds[-1]
+                    # one reading frame whose skipped bases lie inside the 5'-most block (Spec.Gb.Tx.oneFrame)
+                    one_frame = (tx["cds_frames"] == frames_from_start(cds, tx["strand"], sf)
+                                 and (len(cds) == 1 or sf <= five[1] - five[0]))
                     if trans and one_frame:      # a programmed frameshift cannot be expressed by a GenBank location
                         # no /translation = nothing translatable (the writer skips CDSs without a whole codon)
                         ind = independent_translation(f, rec.seq, 11 if flavor == "P" else 1)
